@@ -19,6 +19,8 @@ import (
 // Units (functions, methods, function literals) and their contracts
 // ---------------------------------------------------------------------------------------------
 
+type ghostParam struct{ Name, Sort string }
+
 type Clause struct {
 	Expr  ast.Expr
 	Text  string
@@ -77,6 +79,8 @@ type Unit struct {
 	Invariant []Clause // escaping closure with private captured state: holds whenever the closure is not running (assumed at
 	// entry, proved at exit and where the closure is created)
 	Yields    []Clause // definitions of ghost functions of this closure's function value "self" (assumed at creation and at entry)
+	GhostParams []ghostParam          // ghost parameters (spec-only values the caller supplies with "callghost")
+	CallGhost   map[string]map[string]string // callee (short function name) -> ghost parameter -> spec expression over this unit's state at the call
 	Unpublished map[string]bool // T-typed parameters / receiver that may be half-built (allocated by the caller, not yet returned)
 	UsesDef  []string // lemmas / axioms made available only to the definedness obligations of this unit
 	Trusted  []Clause // postconditions assumed at call sites but not proved from the body (paper lemmas); always reported
@@ -208,7 +212,7 @@ func (p *Program) collectLits(u *Unit, body ast.Node) {
 	})
 }
 
-var clauseRe = regexp.MustCompile(`^(requires|ensures|modifies|loop|takes|public|assumed|bounded|returns|ghost|props|domain|defined|source|target|implements|uses|trusted|witness|wants|have|usesdef|unpublished|invariant|yields)\b(\[[A-Z0-9,]+\])?\s*(.*)$`)
+var clauseRe = regexp.MustCompile(`^(requires|ensures|modifies|loop|takes|public|assumed|bounded|returns|ghostparam|callghost|ghost|props|domain|defined|source|target|implements|uses|trusted|witness|wants|have|usesdef|unpublished|invariant|yields)\b(\[[A-Z0-9,]+\])?\s*(.*)$`)
 
 func (p *Program) specErr(where, msg string) {
 	p.SpecErr = append(p.SpecErr, where+": "+msg)
@@ -246,7 +250,7 @@ func (p *Program) parseSpecs(pkg *packages.Package) {
 			first := strings.Fields(t)[0]
 			first = strings.SplitN(first, "[", 2)[0]
 			switch first {
-			case "func", "closure", "abstract", "requires", "ensures", "modifies", "loop", "takes", "public", "assumed", "bounded", "define", "axiom", "returns", "ghost", "props", "domain", "defined", "source", "target", "implements", "uses", "lemma", "predicate", "trusted", "witness", "wants", "have", "usesdef", "induct", "unpublished", "invariant", "yields":
+			case "func", "closure", "abstract", "requires", "ensures", "modifies", "loop", "takes", "public", "assumed", "bounded", "define", "axiom", "returns", "ghost", "props", "domain", "defined", "source", "target", "implements", "uses", "lemma", "predicate", "trusted", "witness", "wants", "have", "usesdef", "induct", "unpublished", "invariant", "yields", "ghostparam", "callghost":
 				joined = append(joined, line{t, l.where})
 			default:
 				if len(joined) == 0 {
@@ -450,6 +454,41 @@ func (p *Program) parseSpecs(pkg *packages.Package) {
 				case "yields":
 					if c, ok := mk(rest); ok {
 						cur.Yields = append(cur.Yields, c)
+					}
+				case "ghostparam":
+					// ghostparam S Idx, n Int
+					for _, x := range strings.Split(rest, ",") {
+						fs := strings.Fields(x)
+						if len(fs) != 2 {
+							p.specErr(l.where, "ghostparam needs 'name Sort'")
+							continue
+						}
+						srt := fs[1]
+						if srt == "Idx" {
+							srt = idxSort
+						}
+						cur.GhostParams = append(cur.GhostParams, ghostParam{fs[0], srt})
+					}
+				case "callghost":
+					// callghost callee: S = expr; n = expr
+					i := strings.Index(rest, ":")
+					if i < 0 {
+						p.specErr(l.where, "callghost needs 'callee: name = expr; ...'")
+						continue
+					}
+					callee := strings.TrimSpace(rest[:i])
+					if cur.CallGhost == nil {
+						cur.CallGhost = map[string]map[string]string{}
+					}
+					if cur.CallGhost[callee] == nil {
+						cur.CallGhost[callee] = map[string]string{}
+					}
+					for _, x := range strings.Split(rest[i+1:], ";") {
+						j := strings.Index(x, "=")
+						if j < 0 {
+							continue
+						}
+						cur.CallGhost[callee][strings.TrimSpace(x[:j])] = strings.TrimSpace(x[j+1:])
 					}
 				case "unpublished":
 					if cur.Unpublished == nil {
